@@ -28,6 +28,17 @@ CHECKS = {
         "components": {"real": REAL, "stub": STUB_SCHED},
         "assumptions": ["map iterations over pointer-keyed maps keep the runtime's order (counted as unseamed); they are exercised only through repeated and cross-process compilation", "same Go version and architecture for all compilations"],
     },
+    "C20": {
+        "engine": "c20",
+        "level": "exploration",
+        "rule": "one evaluation = one live proof compared element-wise with the zero-entropy proof U of the same witness and with the other proofs of its history; a case = (backend, curve, "
+                "generated circuit, witness, statistical-ZK option, history in {sequential, concurrent, entropy error at draw k, replayed entropy}, number of proofs)",
+        "quick": {"runs": 800, "budget_s": 200, "selftest_runs": 5, "params": {"slots": 32}},
+        "thorough": {"runs": 30000, "budget_s": 2400, "selftest_runs": 8, "params": {"slots": 64}},
+        "expect_probes": ["history:sequential", "history:concurrent", "entropy_stuck_at_zero", "entropy_error_at_draw_k", "entropy_replayed_block", "circuit_with_commitment"],
+        "components": {"real": REAL, "stub": STUB_SCHED + ["entropy source under fault (stuck at zero, error at draw k, replayed block)"]},
+        "assumptions": ["blinded elements are those the property names: Groth16 Ar, Bs, Krs, Commitments[i]; PLONK LRO, Z, H, Bsb22Commitments[i] and the opening proofs", "U is what the real prover emits when every entropy byte is zero", "r != s is decided with a pairing on BN254 only"],
+    },
     "C06": {
         "engine": "c06",
         "level": "exploration",
